@@ -236,9 +236,60 @@ func runNative(bin, harness, replayPath string, timeout time.Duration, extra ...
 	return string(out), err, ctx.Err() != nil
 }
 
+// nativeBins caches native builds within one check run: one binary per harness dir and shim mode,
+// containing every harness entry of that dir.
+type nativeBins struct {
+	repo, verif string
+	names       map[string][]string // harness dir -> entries
+	bins        map[string]string
+	tmps        []string
+}
+
+func newNativeBins(repo, verif string, all []string) *nativeBins {
+	nb := &nativeBins{repo: repo, verif: verif, names: map[string][]string{}, bins: map[string]string{}}
+	for _, h := range all {
+		if hd, _, err := findHarnessDir(verif, h); err == nil {
+			nb.names[hd] = append(nb.names[hd], h)
+		}
+	}
+	return nb
+}
+
+func (nb *nativeBins) get(hd, rel string, md nativeMode, harness string) (string, error) {
+	k := fmt.Sprintf("%s|%v", hd, md)
+	if b, ok := nb.bins[k]; ok {
+		return b, nil
+	}
+	names := nb.names[hd]
+	if len(names) == 0 {
+		names = []string{harness}
+	}
+	bin, tmp, err := buildNative(nb.repo, nb.verif, hd, rel, names, md)
+	if tmp != "" {
+		nb.tmps = append(nb.tmps, tmp)
+	}
+	if err != nil {
+		return "", err
+	}
+	nb.bins[k] = bin
+	return bin, nil
+}
+
+func (nb *nativeBins) close() {
+	for _, t := range nb.tmps {
+		os.RemoveAll(t)
+	}
+}
+
 // ReplayNative compiles the harness natively against the real build of repo and runs it on the
 // recorded counterexample. ok reports whether the expected failure reproduced.
 func ReplayNative(repo, verif, replayPath string) (bool, string) {
+	nb := newNativeBins(repo, verif, nil)
+	defer nb.close()
+	return nb.replay(replayPath)
+}
+
+func (nb *nativeBins) replay(replayPath string) (bool, string) {
 	data, err := os.ReadFile(replayPath)
 	if err != nil {
 		return false, err.Error()
@@ -247,14 +298,11 @@ func ReplayNative(repo, verif, replayPath string) (bool, string) {
 	if err := json.Unmarshal(data, &doc); err != nil {
 		return false, err.Error()
 	}
-	hd, rel, err := findHarnessDir(verif, doc.Harness)
+	hd, rel, err := findHarnessDir(nb.verif, doc.Harness)
 	if err != nil {
 		return false, err.Error()
 	}
-	bin, tmp, err := buildNative(repo, verif, hd, rel, []string{doc.Harness}, doc.mode())
-	if tmp != "" {
-		defer os.RemoveAll(tmp)
-	}
+	bin, err := nb.get(hd, rel, doc.mode(), doc.Harness)
 	if err != nil {
 		return false, err.Error()
 	}
